@@ -30,6 +30,7 @@ LOG_SHAPES_QUICK = [
     ['msg-timed', 'msg-type0', 'msg-timed'],                                              # a type-0 message in the middle
     ['msg-untimed', 'msg-timed', 'msg-type0'],                                            # last message of type 0: saved without EOF marker
     ['msg-invalidstamp'],                                                                 # a single message
+    ['msg-timed', 'msg-untimed', 'msg-unknown', 'junk'],                                  # unequal messages, junk tail
     ['msg-empty', 'wrapper', 'corrupt-crc', 'msg-bigstamp', 'msg-shortpayload', 'truncated'],  # ends in a cut message
 ]
 
@@ -73,6 +74,49 @@ def parse_o(line):
     return {'load': d['load'], 'msgs': frames_of(d['msgs']), 'p1i': None if d['p1i'] == 'none' else ('' if d['p1i'] == '-' else d['p1i'])}
 
 
+NAMES = ['log.p1log', 'capture.bin', 'capture.raw', 'session', 'session.5.log', 'input.p1log']   # data file names: the index is <stem>.p1i
+
+
+def is_msg(kind):
+    return kind.startswith('msg-') or kind == 'wrapper'
+
+
+def replacements(g, pieces, others):
+    """the data file REPLACED by a different file (property text: "replaced by a file of different size"): files derived
+    from the indexed log by permuting / resizing messages and stripping / adding junk, and unrelated logs."""
+    P = [list(x) for x in pieces]
+    mi = [i for i, (k, _) in enumerate(P) if is_msg(k)]
+    out = []
+
+    def strip_tail(Q):
+        Q = list(Q)
+        while Q and not is_msg(Q[-1][0]):
+            Q.pop()
+        return Q
+    if len(mi) >= 2:
+        Q = list(P); Q[mi[0]], Q[mi[1]] = Q[mi[1]], Q[mi[0]]
+        out.append(('replaced-swap-first-two', Q))
+        out.append(('replaced-swap-first-two-tail-stripped', strip_tail(Q)))
+        Q = list(P)
+        for a, b in zip(mi, reversed(mi)):
+            Q[a] = P[b]
+        out.append(('replaced-messages-reversed', Q))
+        out.append(('replaced-messages-reversed-tail-stripped', strip_tail(Q)))
+    out.append(('replaced-tail-junk-stripped', strip_tail(P)))
+    out.append(('replaced-all-junk-stripped', [x for x in P if is_msg(x[0])]))
+    out.append(('replaced-junk-prepended', [['junk', g.junk_head.hex()]] + P))
+    out.append(('replaced-junk-tail-added', P + [['junk', g.junk_head.hex()]]))
+    if mi:
+        Q = list(P); Q[mi[0]] = ['msg-unknown', g.resized.hex()]
+        out.append(('replaced-first-message-resized', Q))
+        out.append(('replaced-first-message-resized-tail-stripped', strip_tail(Q)))
+        Q = list(P); Q[mi[-1]] = ['msg-unknown', g.resized.hex()]
+        out.append(('replaced-last-message-resized', Q))
+    for o in others:
+        out.append(('replaced-other-log', o))
+    return [(n, c18.file_of(Q)) for n, Q in out]
+
+
 def histories(ctx, g, d, frames, k, nrec_full, other):
     """data-file histories after the index of d was saved and cut to k bytes. Returns [(name, bytes)]."""
     r = ctx.rng
@@ -98,8 +142,6 @@ def histories(ctx, g, d, frames, k, nrec_full, other):
         mids += [o + n - 1, o + 24]
     for b in sorted(set(m for m in mids if 0 < m < len(d) and m not in bounds))[: (4 if ctx.thorough else 2)]:
         hs.append(('truncate-mid-message', d[:b]))
-    if k == nrec_full * REC and other is not None and len(other) != len(d):
-        hs.append(('replaced-other-size', other))
     return hs
 
 
@@ -115,6 +157,8 @@ def run(ctx):
     templates = c18.get_templates()
     g = c18.Gen(ctx.rng, templates)
     g.appended = g.piece('msg-timed')
+    g.junk_head = b'\xd3junk-'
+    g.resized = c18.fe(60005, bytes(range(37)), 99)
     logs = load_corpus() + make_logs(ctx, g)
     datas = [c18.file_of(p) for p in logs]
 
@@ -134,24 +178,34 @@ def run(ctx):
         full = fulls[li]
         if full is None:
             # a log without messages has no index file; only stale leftovers can exist
-            plan.append((li, 0, 'same', d, None, False, 1))
+            plan.append((li, 0, 'same', d, None, False, 1, True))
             continue
         nb = len(full) // 2
-        other = datas[(li + 1) % len(datas)]
+        has_marker = fr and struct.unpack_from('<H', d, fr[-1][0] + 10)[0] != 0
         for k in range(nb + 1):
             p1i = full[:2 * k]
-            for name, dd in histories(ctx, g, d, fr, k, nb // REC, other):
-                plan.append((li, k, name, dd, p1i, False, None if (k + len(dd)) % 11 == 0 else 1))
+            for name, dd in histories(ctx, g, d, fr, k, nb // REC, None):
+                plan.append((li, k, name, dd, p1i, False, None if (k + len(dd)) % 11 == 0 else 1, True))
             if k in (0, REC, nb - 1, nb):
                 for name, dd in [('same', d), ('truncate-to-0', b''), ('append-junk', d + b'\x00junk.')]:
-                    plan.append((li, k, name, dd, p1i, True, 1))
-        plan.append((li, 0, 'no-index-file', d, None, False, None))
+                    plan.append((li, k, name, dd, p1i, True, 1, True))
+        # replaced by a different file: with the complete index (marker) a different size must be rejected (SPEC applies);
+        # with the index cut at a record boundary the loader cannot tell in general (outside the statement): those
+        # cases are compared with the MODEL only
+        reps = replacements(g, logs[li], [logs[(li + 1) % len(logs)], logs[(li + 2) % len(logs)]])
+        for name, dd in reps:
+            if len(dd) != len(d):
+                plan.append((li, nb, name, dd, full, False, 1, bool(has_marker)))
+                for k in ([nb - REC] if not ctx.thorough else range(REC, nb, REC)):
+                    if k > 0:
+                        plan.append((li, k, name, dd, full[:2 * k], False, 1, False))
+        plan.append((li, 0, 'no-index-file', d, None, False, None, True))
     more = sorted(set(p[3] for p in plan) - set(distinct))
     p1tabs.update(p1_tables(ctx, model, more))
     ctx.log('%d logs, %d open histories, %d distinct data files' % (len(logs), len(plan), len(p1tabs)))
 
     # ---- IMPL, MODEL (current and pre-repair loader), SPEC ---------------------------------------------
-    recs = [{'id': str(i), 'data': p[3].hex(), 'p1i': p[4], 'ignore': p[5], 'threads': p[6]} for i, p in enumerate(plan)]
+    recs = [{'id': str(i), 'data': p[3].hex(), 'p1i': p[4], 'ignore': p[5], 'threads': p[6], 'name': NAMES[i % len(NAMES)]} for i, p in enumerate(plan)]
     impl = run_impl(ctx, 'open', recs)
     ctx.log('IMPL done')
     lines = ['O cur %s %s %d %s' % ('none' if p[4] is None else (p[4] or '-'), c18.hx(p[3]), 1 if p[5] else 0, tab(p1tabs[p[3]])) for p in plan]
@@ -163,24 +217,31 @@ def run(ctx):
     ctx.log('MODEL/SPEC done')
     seen = set()
     for i, p in enumerate(plan):
-        li, k, name, dd, p1i, ig, th = p
+        li, k, name, dd, p1i, ig, th, spec_applies = p
+        fname = NAMES[i % len(NAMES)]
         r = impl[str(i)]
         if 'harness_error' in r:
             raise RuntimeError('c09 harness error: %s\n%s' % (r['harness_error'], r.get('tb')))
         m = mo[i]
         want = spec_frames[dd]
         kind = classify_index(p1i, fulls[li])
-        sig0 = {'history': name, 'index': kind, 'ignore_index': ig, 'data_empty': len(dd) == 0, 'data_has_messages': bool(want)}
+        sig0 = {'history': name.split('-')[0] if name.startswith('replaced') else name, 'index': kind, 'ignore_index': ig, 'data_empty': len(dd) == 0, 'data_has_messages': bool(want)}
         case = {'log_pieces': [kk for kk, _ in logs[li]], 'data_hex': dd.hex(), 'p1i_hex': p1i, 'index_cut_at': k, 'full_index_hex': fulls[li],
-                'history': name, 'ignore_index': ig, 'num_threads': th, 'impl': r, 'model': m, 'spec': {'msgs': want, 'p1i_after': spec_p1i[dd]}}
+                'history': name, 'ignore_index': ig, 'num_threads': th, 'file_name': fname, 'spec_applies': spec_applies, 'impl': r, 'model': m, 'spec': {'msgs': want, 'p1i_after': spec_p1i[dd]}}
         ctx.case(hashlib.sha1(repr((dd, p1i, ig)).encode()).hexdigest()[:16])
-        ctx.count('history:' + name); ctx.count('index:' + kind)
+        ctx.count('history:' + name); ctx.count('index:' + kind); ctx.count('name:' + ('*.p1log' if fname.endswith('.p1log') else fname))
         ctx.count('model-load:' + (m.get('load', 'crash').split(':')[0] if not m.get('crash') else 'crash'))
         bad = None
         f1, f2 = r['first'], r['second']
         if 'exc' in f1 or 'exc' in f2:
             e = f1 if 'exc' in f1 else f2
             bad = (dict(sig0, obs='exception', exc=e['exc']), 'opening the log raised %s: %s' % (e['exc'], e['msg']))
+        elif not spec_applies:
+            # outside the statement (cut index next to a replaced file): the implementation is only held to the model
+            if m.get('crash') or f1['msgs'] != m['msgs'] or f1['p1i'] != m['p1i']:
+                ctx.broken_correspondence('open model differs from the implementation on a replaced data file (history %s, index cut at %d)' % (name, k), case)
+            ctx.count('outcome:model-only')
+            continue
         elif f1['msgs'] != want or not f1['bytes_ok']:
             bad = (dict(sig0, obs='messages'), 'reading through the index returns %d messages %r, reading the data afresh %d messages %r'
                    % (len(f1['msgs']), f1['msgs'][:6], len(want), want[:6]))
@@ -214,7 +275,9 @@ def run(ctx):
         ctx.sample({'log': [kk for kk, _ in logs[p[0]]], 'index_cut_at': p[1], 'history': p[2], 'ignore_index': p[5]})
     ctx.coverage['rule'] = ('%d generated logs (junk between/after messages, type-0 messages in the middle and last, single message, cut tail); the saved index of each log cut at EVERY '
                             'byte length 0..len (exhaustive); after each cut the data-file histories: unchanged, message appended, junk appended, truncated to 0, truncated to %s, '
-                            'truncated inside a message, replaced by another log of different size (full index); opened with MixedLogReader (ignore_index False; True for 4 cut lengths), read to the end, '
+                            'truncated inside a message; REPLACED by a different file of different size (first two messages swapped, messages reversed, junk stripped / prepended / appended, first / last message resized, '
+                            'tail junk stripped after each, two other logs) next to the complete index (SPEC applies) and next to the index cut at a record boundary (model only); data files named '
+                            'log.p1log, capture.bin, capture.raw, session (no extension), session.5.log, input.p1log in rotation; opened with MixedLogReader (ignore_index False; True for 4 cut lengths), read to the end, '
                             'then re-opened; num_threads=1 except every ~11th case (default pool). Compared: message offsets/lengths/bytes, exception, .p1i afterwards. '
                             'A case is distinct by (data file, index bytes, ignore_index).' % (len(logs), 'every message boundary' if ctx.thorough else 'the end/start of the last indexed message and one random boundary'))
     ctx.coverage['exhaustive'] = False
@@ -263,7 +326,7 @@ def replay(ctx, rec):
     d = bytes.fromhex(case['data_hex'])
     p1i = case['p1i_hex']
     t = p1_tables(ctx, model, [d])[d]
-    r = run_impl(ctx, 'open', [{'id': '0', 'data': d.hex(), 'p1i': p1i, 'ignore': case['ignore_index'], 'threads': case.get('num_threads')}])['0']
+    r = run_impl(ctx, 'open', [{'id': '0', 'data': d.hex(), 'p1i': p1i, 'ignore': case['ignore_index'], 'threads': case.get('num_threads'), 'name': case.get('file_name', 'log.p1log')}])['0']
     args = ('none' if p1i is None else (p1i or '-'), c18.hx(d), 1 if case['ignore_index'] else 0, tab(t))
     print('data %d bytes, index %s bytes, history %s, ignore_index=%s' % (len(d), 'no' if p1i is None else len(p1i) // 2, case.get('history'), case['ignore_index']))
     print('IMPL        ', json.dumps({k: r[k] for k in ('first', 'second')})[:1200])
